@@ -66,7 +66,7 @@ BAD_NAMES = ("../evil", "../../evil", "/abs/evil", "sub/evil", "sub/../evil",
              # names that are not in Unicode NFC form / compatibility
              # look-alikes of files that exist in the working directory
              "u\u0308ni\u0308.bin", "\u212aconfig", "re\u0301sume\u0301.txt",
-             "\uff2bconfig")
+             "\uff2bconfig", "dir\\evil", "..\\evil", "existingdir\\inner.txt")
 MEMBERS = ("ok.txt", "sub/ok2.txt", "../escape.txt", "../../escape2.txt",
            "/abs/escape3.txt", "sub/../../escape4.txt", "a/../b.txt", ".",
            "", "./", "..", "dir/", "sub/", "ok.txt", "ünï.txt",
@@ -235,6 +235,11 @@ def _run2(seed, tape, opts, w):
             dest = os.path.abspath(os.path.join(o, bn)) if os.path.isdir(o) \
                 else o
     dest_tmp = dest + ".tmp"
+    if under_cwd and not os.path.lexists(dest_tmp) and \
+            os.path.isdir(os.path.dirname(dest_tmp)) and \
+            tape.choose(5, "tmp1") == 0:
+        # an unrelated file that happens to be called <destination>.tmp
+        put(os.path.relpath(dest_tmp, base), b"unrelated tmp")
     tmp_preexisted = os.path.lexists(dest_tmp)
     dest_preexisted = os.path.lexists(dest)
     dest_was_dir = os.path.isdir(dest)
@@ -263,8 +268,9 @@ def _run2(seed, tape, opts, w):
     # environment: while the transfer is under way somebody else (another
     # `wormhole receive` in the same directory, say) creates the announced
     # destination as a directory / a file
-    env = tape.pick(("none", "none", "none", "mkdir", "file"), "env") \
-        if not dest_preexisted else "none"
+    env = tape.pick(("none", "none", "none", "mkdir", "file", "cut", "cut"),
+                    "env") if not dest_preexisted else \
+        tape.pick(("none", "cut"), "env2")
     env_paths = set()
     env_state = {"left": None}
 
@@ -283,6 +289,14 @@ def _run2(seed, tape, opts, w):
             env_state["left"] -= 1
             return
         env_state["left"] = -1
+        if env == "cut":
+            # the transit connection dies mid-transfer
+            for l in getattr(w, "transit_links", []):
+                if l.up:
+                    sim.ev("env", "cut_transit")
+                    sim.note("fault.cut")
+                    sim.net.cut(l)
+            return
         if os.path.lexists(dest):
             return
         sim.ev("env", env)
@@ -385,7 +399,9 @@ def _run2(seed, tape, opts, w):
         what = "created" if b is None else ("removed" if a is None else
                                             "modified")
         if k == rel_tmp and tmp_preexisted:
-            V("C05.clobbered_preexisting_tmp", "the receiver writes only to "
+            V("C05.clobbered_preexisting_tmp" + (
+                "" if kind == "file" else ".directory_offer"),
+              "the receiver writes only to "
               "the single destination it announced; an existing file is "
               "replaced only when --output-file names it",
               "pre-existing unrelated %r was %s (announced destination %r)" %
